@@ -28,4 +28,31 @@ PROPS = {
         rule="acl suite: bounded-exhaustive rule lists over a pool of allow/deny x {all, /0 /8 /16 /23 /24 /25 /32 v4, /0 /10 /32 /48 /128 v6, v4-mapped-in-v6 networks} and malformed rules x addresses on and around every prefix boundary incl. mapped, zoned and unparsable ones; non-trivial = at least one rule; the implementation-level oracle is an independent bitwise first-match reference",
         assumptions=["net.ParseIP returns the 16-byte form; net.ParseCIDR returns (network number, mask) as shipped; both are validated only through the suite"],
     ),
+    'C02': dict(
+        lean_modules=['RsyncModel.Properties.C02'],
+        gen=['Consts'],
+        suites=['checksum', 'search', 'recvdata'],
+        level_text="Proved in Lean for every basis, target, header, signature list, chunking and flush policy (strong hashes are arbitrary functions): the Go-shaped sender loop (uint32 rolling pair, recompute-and-roll after a match, chunkSize cutting, early flush) refines a three-line greedy specification; every reference is justified by length, weak and truncated strong sum and the tokens cover the target exactly; Checksum1's 4-unrolled loop is the signed-char weak sum and the rolling update is exact; the receiver writes exactly what any token stream denotes; ReadAt offsets agree with the generator's block cut (ceil/mod arithmetic); and the full round trip sender->wire->receiver commits exactly the target against an honest signature (hypothesis: no truncated-strong-hash collision). The model is tied to the code by regenerated constants and by the checksum/search/recvdata correspondence suites (real SendFiles/hashSearch with harness-supplied signatures incl. layouts gokrazy never sends; real recvFile1 on scripted and damaged streams).",
+        level_note="Trusted: Lean kernel; extractor (constants); correspondence harness. Modelled-not-verified Go-level details below the algorithm level: the sliding read window mapStruct.ptr, the tag-table sort, the `end` cut-off and the bytes fed to the whole-file hash are covered by the search suite (token-for-token equality with the model, trailer included, and an independent reconstruction oracle up to 1 MiB across several 256 KiB windows), not by a theorem. MD4 is an arbitrary function in every theorem; collision freedom is a stated hypothesis.",
+        rule="checksum: all 256 one-byte buffers + random/sign-bit-heavy buffers through Checksum1 and MD4, SumSizesSqroot on squares +-1. search: bounded-exhaustive bases and targets over {a,b} (len<=4 quick, <=6 thorough) x block lengths 1..3(4), structured random edits of bases incl. periodic/zero/duplicate-block/weak-collision bases, strong lengths 2..16, odd remainders; large implementation-only cases crossing the 256 KiB window. recvdata: scripted token streams (any chunking/order), the real sender's streams, bit flips, truncations, reordered/substituted references, changed basis, hostile headers. non-trivial: stream contains a block reference (search) / file committed (recvdata)",
+        assumptions=["file sizes < 2^52 (int32(math.Sqrt(float64 n)) = Nat.sqrt n; validated on m^2-1, m^2, m^2+1)", "no truncated strong-hash collision between a basis block and a different window of equal length (round trip only)"],
+    ),
+    'C16': dict(
+        lean_modules=['RsyncModel.Properties.C16'],
+        gen=['Consts'],
+        suites=['search', 'deltaeff'],
+        level_text="Proved in Lean for every context and choice function: a literal is sent only where no block matches the window at that byte (greedy completeness at every offset); an identical file is sent as references only (duplicate and short last blocks included); unmatched bytes in front of the scan cost exactly themselves and data shifted by an insertion of any length is found again (references only after the insertion); the Go-level rolling loop is that specification (refinement) and the rolling pair is the weak sum of the window at every loop head. Tied to the code by the search suite (token equality with the model; oracle: no literal where a block matches) and the deltaeff suite (literal-byte bound on high-entropy files with local edits).",
+        level_note="edit_bound for k arbitrary edits is stated in DESIGN.md but proved only in the forms above (identical file; insertion in front; leftmost matching); the general bound 'edited bytes + 2(bl-1) per unchanged run' is checked by the deltaeff oracle on the implementation, not by a theorem. MD4 arbitrary.",
+        rule="search as in C02; deltaeff: high-entropy files 8 KiB..2 MiB (thorough 16 MiB) with 0..6 insertions/deletions/replacements at unaligned offsets, prepends/appends, block permutations, real generator block sizes and others; oracle: literal bytes <= edited bytes + 2*bl per edit (+bl), identical => 0",
+        assumptions=["high-entropy data: no spurious weak+strong match (hypothesis hno of shifted_data_found)"],
+    ),
+    'C03': dict(
+        lean_modules=['RsyncModel.Properties.C03'],
+        gen=['Consts', 'RecvOrder'],
+        suites=['recvdata'],
+        level_text="Proved in Lean over the receiver as a function of the raw byte stream (every stream, every basis): a commit implies that the 16 bytes after the token stream equal the whole-file hash of the reconstructed content; consequently a damaged stream that still carries the sender's trailer can only commit content with the same hash (equal content under second-preimage resistance); a wrong trailer is refused; there is no outcome other than commit-after-comparison or error. The regenerated RecvOrder facts pin the code shape the model stands for: in receiveData the only CloseAtomicallyReplace comes after `if !bytes.Equal(localSum, remoteSum) { return err }`, localSum is h.Sum of the MultiWriter(out,h) that receives every written byte, remoteSum is read from the connection. Tied dynamically by the recvdata suite (bit flips at every position for small streams, substituted/reordered references, truncations, changed basis).",
+        level_note="MD4 second-preimage resistance is a hypothesis. Destination-unchanged-on-error is observed by the suite's oracle on the real file system (and is the subject of C04's event model).",
+        rule="recvdata suite as in C02; oracle: success => committed content equals the intended target and hashes to a trailer present in the stream; error => destination byte-identical to before (or still absent) and no temporary file left",
+        assumptions=["MD4(seed||.) second-preimage resistance where equality of content is concluded"],
+    ),
 }
